@@ -303,3 +303,10 @@ MUTANTS["C14"] += [
     ("attach prefers the gap right after the output over a lower... (skips position 1 when two gaps exist)",
      [("rv/project.py", "                module.index = self.module_index(None)\n", "                module.index = self.module_index(None)\n                if module.index == 1 and self.modules.count(None) > 1:\n                    module.index = self.modules.index(None, 2)\n")]),
 ]
+
+MUTANTS["C12"] += [
+    ("effect setter ORs only when the old effect byte is exactly 0x80 (value-specific: needs the triple enumeration)",
+     [("rv/note.py", "        self.ctl = (self.ctl & 0xFF00) | (value & 0xFF)", "        self.ctl = ((self.ctl & 0xFF00) | (value & 0xFF)) if (self.ctl & 0xFF) != 0x80 else (self.ctl | (value & 0xFF))")]),
+    ("val_xx setter drops bit 7 of the new value when the old YY byte is 0xA5",
+     [("rv/note.py", "        self.val = (self.val & 0x00FF) | ((value & 0xFF) << 8)", "        self.val = (self.val & 0x00FF) | ((value & (0x7F if (self.val & 0xFF) == 0xA5 else 0xFF)) << 8)")]),
+]
